@@ -18,7 +18,10 @@ C13_SLOW_FIRST = ['modulus_special_divisors', 'divide_special_divisors', 'bitwis
 
 C11_SHAPES = ['c11_shape_or', 'c11_shape_and', 'c11_shape_eq', 'c11_shape_ne', 'c11_shape_lt', 'c11_shape_lt_adjacent', 'c11_shape_le',
               'c11_shape_gt', 'c11_shape_ge', 'c11_prec_or_and', 'c11_prec_and_or', 'c11_prec_and_eq', 'c11_prec_eq_lt', 'c11_prec_lt_eq',
-              'c11_assoc_lt_lt', 'c11_assoc_eq_ne', 'c11_assoc_or_or', 'c11_shape_lt_space_eq_is_not_le']
+              'c11_assoc_lt_lt', 'c11_assoc_eq_ne', 'c11_assoc_or_or', 'c11_shape_lt_space_eq_is_not_le',
+              'c11_shape_not', 'c11_shape_not_not', 'c11_shape_not_not_not', 'c11_prec_lt_not']
+# three real levels (parse_p7 -> parse_p6 -> parse_p2 -> parse_leaf): 5 min each, thorough tier
+C11_SHAPES_SLOW = ['c11_prec_not_eq', 'c11_prec_not_not_eq']
 
 C11_GATING = ['c11_gating_' + d + '_bounded' for d in ('define', 'undef', 'include', 'pragma', 'unknown', 'ifdef', 'if', 'elif', 'else', 'endif')]
 
@@ -72,6 +75,7 @@ PROPS = {
                            ('c10_literal_float_shape_exponent_bounded', 'bounded:token shape D e sign D [suffix]'),
                            ('c10_literal_float_shape_missing_parts_bounded', 'bounded:token shapes .DeD and D.'),
                            ('c10_literal_float_rejects_integers_bounded', 'bounded:token shape DD'),
+                           ('c10_float_exponent_value_bounded', 'bounded:token shape e sign DDD'),
                            ('c08_float_exponent_total_bounded', 'bounded:inputs of at most 22 bytes')], 'tier': 'quick'},
         ],
         'design_ref': 'DESIGN.md Part I, I.4 (C10)',
@@ -90,6 +94,8 @@ PROPS = {
             {'module': 'preprocess/preprocess.rs',
              'harnesses': [('c11_condition_chain_sequence_bounded', 'bounded:operation sequences of length 5')],
              'tier': 'thorough'},
+            {'module': 'preprocess/condition_parser.rs',
+             'harnesses': [(h, 'bounded:one token shape, u64 operands complete') for h in C11_SHAPES_SLOW], 'tier': 'thorough'},
         ],
         'design_ref': 'DESIGN.md Part I, I.4 (C11)',
     },
@@ -102,6 +108,8 @@ PROPS = {
              'harnesses': [('c13_op_' + o, 'complete') for o in C13_SLOW_FIRST]
                           + [('c13_op_' + o, 'complete') for o in C13_OPS if o not in C13_SLOW_FIRST and o not in ('multiply', 'divide', 'modulus')]
                           + [('c13_op_nonconstant_argument_propagates', 'complete')]
+                          # * / %: modular in the std primitive the code delegates to (see the harness module)
+                          + [('c13_op_multiply_modular', 'complete'), ('c13_op_divide_modular', 'complete'), ('c13_op_modulus_modular', 'complete')]
                           + [('c13_cast_to_' + t, 'complete') for t in ('bool', 'int', 'uint', 'half', 'float', 'double', 'enum_int', 'enum_uint')],
              # kissat decides these 2-3x faster than the default CaDiCaL; the per-assertion reachability covers cost one SAT call
              # each and are replaced by the explicit kani::cover!(true) at the end of every harness
@@ -110,12 +118,12 @@ PROPS = {
             {'module': 'ir/ir_types.rs',
              'harnesses': [('c13_to_uint64_is_the_nonnegative_integer_value', 'complete')], 'tier': 'quick'},
             {'module': 'typer/evaluator.rs',
-             # kissat needs 7 to 15+ minutes for the 32-bit multiplier equivalence: thorough tier only
-             'harnesses': [('c13_op_multiply', 'complete'),
-                           ('c13_op_multiply_intlit_bounded', 'bounded:untyped literal operands of magnitude < 2^20'),
+             # value-level search for quotient / remainder / product slips (8 to 26 min each): thorough tier
+             'harnesses': [('c13_op_multiply_intlit_bounded', 'bounded:untyped literal operands of magnitude < 2^20'),
                            ('c13_op_divide_small_bounded', 'bounded:integer operands of magnitude < 2^12'),
                            ('c13_op_modulus_small_bounded', 'bounded:integer operands of magnitude < 2^12'),
                            ],
+             'kani_args': ['--solver', 'kissat', '--no-assertion-reach-checks'],
              'tier': 'thorough'},
         ],
         'design_ref': 'DESIGN.md Part I, I.4 (C13)',
@@ -126,6 +134,9 @@ PROPS = {
         # API-driven bounded harness: keeps deciding (and gives a concrete input) when get_file_location is rewritten
         'k_groups': [{'module': 'text/location.rs',
                       'harnesses': [('c14_get_file_location_bounded', 'bounded:2 files of <= 3 and <= 2 bytes, 2 queries')],
+                      'tier': 'quick'},
+                     {'module': 'preprocess/lexer.rs',
+                      'harnesses': [('c14_block_comment_ends_at_first_terminator_bounded', 'bounded:inputs of at most 8 bytes')],
                       'tier': 'quick'}],
         'design_ref': 'DESIGN.md Part I, I.4 (C14)',
     },
